@@ -81,15 +81,27 @@ type Ctx struct {
 	ufs    map[string]bool
 	fresh  map[string]bool // refs allocated by the function under analysis
 	// loop modified sets discovered so far: key fn#headerIndex -> heap names
-	loopMods map[string]map[string]bool
+	loopMods map[string]map[string]*modInfo
 	restart  bool
 	inlined  map[string]bool
 	depth    int
 	panics   []*PanicExit
 	gaps     map[string]bool // active known-gap names (assumed)
 	elemAx   bool
+	writes   []writeRec // every store to a heap variable, in script order
 	facts    map[string]bool // goals already assumed or demanded (deduplication of safety checks)
 	curPos   token.Pos
+}
+
+type writeRec struct {
+	heap string
+	key  string // first key of the written cell; "" when a whole heap variable was replaced
+	pos  int
+}
+
+type modInfo struct {
+	whole bool
+	keys  []string
 }
 
 type PanicExit struct {
@@ -101,7 +113,7 @@ type PanicExit struct {
 	callee   string
 }
 
-func newCtx(p *Program, db *SpecDB, fn string, loopMods map[string]map[string]bool) *Ctx {
+func newCtx(p *Program, db *SpecDB, fn string, loopMods map[string]map[string]*modInfo) *Ctx {
 	c := &Ctx{P: p, DB: db, names: map[string]int{}, heaps: map[string]*heapInfo{}, subs: map[string]bool{}, subK: map[string]int{}, tags: map[string]int{}, tagTyp: map[int]types.Type{},
 		strs: map[string]int{}, notes: map[string]bool{}, fn: fn, ufs: map[string]bool{}, fresh: map[string]bool{}, loopMods: loopMods, inlined: map[string]bool{}, gaps: map[string]bool{}, facts: map[string]bool{}}
 	c.emit("(declare-fun birth (Int) Int)")
@@ -171,6 +183,13 @@ func (c *Ctx) assumeUnder(st *State, term string) {
 }
 
 func (c *Ctx) oblige(st *State, kind, name, goal, text string) *Obligation {
+	if parts := splitAnd(goal); len(parts) > 1 && len(parts) <= 16 && !strings.HasPrefix(kind, "safe/") {
+		var last *Obligation
+		for i, p := range parts {
+			last = c.oblige(st, kind, fmt.Sprintf("%s.%c", name, 'a'+rune(i%26))+strings.Repeat("'", i/26), p, text)
+		}
+		return last
+	}
 	g := implies(st.reach, goal)
 	o := &Obligation{Name: name, Kind: kind, Func: c.fn, Prefix: len(c.script), Goal: g, Text: text, Expect: "unsat", Pos: c.P.pos(c.curPos)}
 	c.obls = append(c.obls, o)
@@ -207,6 +226,11 @@ func (c *Ctx) hget(st *State, name string) string {
 
 func (c *Ctx) hset(st *State, name, term string) {
 	h := c.heaps[name]
+	key := ""
+	if strings.HasPrefix(term, "(store "+c.hget(st, name)+" ") {
+		key = firstArg(term[len("(store "+c.hget(st, name)+" "):])
+	}
+	c.writes = append(c.writes, writeRec{name, key, len(c.script)})
 	st.heap[name] = c.define("H."+name, h.sort, term)
 }
 
@@ -525,5 +549,20 @@ func (c *Ctx) mergeStates(ins []*State) *State {
 	}
 	out.now = c.define("now", "Int", out.now)
 	out.dirty = c.define("dirty", "Bool", out.dirty)
+	return out
+}
+
+// splitAnd splits a top-level SMT conjunction into its conjuncts.
+func splitAnd(t string) []string {
+	if !strings.HasPrefix(t, "(and ") {
+		return []string{t}
+	}
+	body := t[5 : len(t)-1]
+	var out []string
+	for body != "" {
+		a := firstArg(body)
+		out = append(out, a)
+		body = strings.TrimSpace(body[len(a):])
+	}
 	return out
 }
